@@ -290,7 +290,7 @@ def on_generic(pkg, f):
     return bool(f["recv"]) and any(t.get("tparams") for t in pkg["types"] if t["name"] == f["recv"][0])
 
 
-def gen_package(rng, size=None, simple=False, unicode=None, cli=None):
+def gen_package(rng, size=None, simple=False, unicode=None, cli=None, nfiles=None):
     """simple: a few valid targets over string/int/bool only (base of the separate finding streams);
     unicode: draw identifiers from the non-ASCII pools too (None: one package in four)"""
     if unicode is None:
@@ -302,7 +302,7 @@ def gen_package(rng, size=None, simple=False, unicode=None, cli=None):
     clipool = {id(FUNC_NAMES): CLI_FUNC_NAMES, id(NS_NAMES): CLI_NS_NAMES, id(METHOD_NAMES): CLI_METHOD_NAMES} if cli else {}
     uni = lambda pool, extra: pool + ([n for n in extra if keep(n)] * 3 if unicode else []) + clipool.get(id(pool), []) * 2
     _UNI_PARAMS[0] = bool(unicode)
-    nfiles = 1 if simple else rng.choice([1, 1, 2, 2, 3])
+    nfiles = nfiles or (1 if simple else rng.choice([1, 1, 2, 2, 3]))
     size = size or rng.choice([2, 4, 6, 8, 10, 14])
     pkg = {"nfiles": nfiles, "pkgdoc": None, "types": [], "funcs": [], "vars": [], "helpers": []}
     taken = set()          # package-level identifiers, lower-cased (no case-insensitive collisions at all)
@@ -465,6 +465,139 @@ def gen_package(rng, size=None, simple=False, unicode=None, cli=None):
 
 
 # ---------------------------------------------------------------- the separate streams
+MG_VARIANTS = ["renamed-first", "renamed-all", "twice", "dot", "othermg", "alias-of-ns", "local-mg-ident"]
+
+
+def gen_mg_imports(rng, variant):
+    """the import of mage's mg package as a dimension (import names are per FILE)"""
+    pkg = gen_package(rng, unicode=False, cli=False, nfiles=2, size=rng.choice([4, 6, 8]))
+    pkg["types"] = [t for t in pkg["types"] if t["kind"] == "ns" and not t.get("tparams")]
+    pkg["funcs"] = [f for f in pkg["funcs"] if not f["recv"] or f["recv"][0] in {t["name"] for t in pkg["types"]}]
+    for t in pkg["types"]:
+        t["group"] = None
+    used = {go_lower(x) for x in package_identifiers(pkg)} | {go_lower(h["name"]) for h in pkg["helpers"]} | \
+        {go_lower(n) for v in pkg["vars"] for sp in v["specs"] for n in sp["names"]}
+
+    def add_ns(file, qual, nmeth=2):
+        nm = [n for n in NS_NAMES if go_lower(n) not in used][0]
+        used.add(go_lower(nm))
+        pkg["types"].append({"name": nm, "kind": "ns", "file": file, "group": None, "qual": qual})
+        for m in rng.sample(METHOD_NAMES, nmeth):
+            f = gen_func(rng, m, [nm, rng.random() < 0.3, ""], None)
+            f["file"] = rng.randrange(2)
+            pkg["funcs"].append(f)
+        return nm
+
+    raw = lambda name, text, file: pkg["helpers"].append({"kind": "raw", "name": name, "file": file, "text": text})
+    if variant == "renamed-first":       # file 0 knows mg as mage (and uses it), file 1 declares namespaces plainly
+        for t in pkg["types"]:
+            t["file"], t["qual"] = 1, "mg"
+        add_ns(1, "mg")
+        if rng.random() < 0.5:
+            add_ns(0, "mage")
+        else:
+            raw("_", "var _ mage.Namespace\n", 0)
+    elif variant == "renamed-all":
+        for t in pkg["types"]:
+            t["qual"] = "mage"
+        add_ns(rng.randrange(2), "mage")
+    elif variant == "twice":             # one file imports mg twice, plainly and renamed
+        for t in pkg["types"]:
+            t["file"], t["qual"] = 0, rng.choice(["mg", "mage"])
+        add_ns(0, "mg")
+        add_ns(0, "mage")
+    elif variant == "dot":
+        for t in pkg["types"]:
+            t["file"], t["qual"] = 0, "."
+        add_ns(0, ".")
+        add_ns(1, "mg")
+        pkg["dotmg_files"] = [0]
+    elif variant == "othermg":           # file 0 imports ANOTHER package called mg (and the real one as mage)
+        for t in pkg["types"]:
+            t["file"], t["qual"] = 1, "mg"
+        add_ns(0, "othermg")
+        add_ns(0, "mage")
+        add_ns(1, "mg")
+        pkg["othermg_files"] = [0]
+    elif variant == "alias-of-ns":       # type B = A with A a namespace: a method declared on B is a method of A
+        for t in pkg["types"]:
+            t["qual"] = "mg"
+        a = add_ns(rng.randrange(2), "mg")
+        b = [n for n in NS_NAMES if go_lower(n) not in used][0]
+        used.add(go_lower(b))
+        pkg["types"].append({"name": b, "kind": "alias-of", "of": a, "file": rng.randrange(2), "group": None})
+        have = {f["name"] for f in pkg["funcs"] if f["recv"] and f["recv"][0] == a}
+        f = gen_func(rng, [m for m in METHOD_NAMES if m not in have][0], [b, False, ""], None)
+        f["file"] = rng.randrange(2)
+        pkg["funcs"].append(f)
+    elif variant == "local-mg-ident":    # every file imports mg as mage; the package has an identifier mg of its own
+        for t in pkg["types"]:
+            t["qual"] = "mage"
+        add_ns(0, "mage")
+        raw("mg", rng.choice(["type mg struct{}\n", "func mg() {}\n", "var mg = 1\n"]), rng.randrange(2))
+    else:
+        raise ValueError(variant)
+    # Default / Aliases may name methods of types the oracle does not decide: drop such declarations
+    pkg["vars"] = [v for v in pkg["vars"] if not any(n in ("Default", "Aliases") for sp in v["specs"] for n in sp["names"])]
+    return pkg
+
+
+MAGIC_VARIANTS = ["local-default-only", "local-before-package", "closure-aliases", "init-default", "method-local", "const-default",
+                  "func-default", "test-file", "tagged-out-file"]
+
+
+def gen_magic_lookalike(rng, variant):
+    """declarations that LOOK like the magic package-level variables Default / Aliases but are not"""
+    pkg = gen_package(rng, unicode=False, cli=False, nfiles=2, size=rng.choice([4, 6]))
+    valid = [f for f in pkg["funcs"] if oracle_valid(pkg, f) and not f["recv"]]
+    while len(valid) < 2:
+        nm = [n for n in FUNC_NAMES if go_lower(n) not in {go_lower(x) for x in package_identifiers(pkg)} | {go_lower(h["name"]) for h in pkg["helpers"]}
+              | {go_lower(n2) for v in pkg["vars"] for sp in v["specs"] for n2 in sp["names"]}][0]
+        f = gen_func(rng, nm, None, None)
+        f["params"], f["file"] = [], 1
+        pkg["funcs"].append(f)
+        valid.append(f)
+    host, other = valid[0], valid[1]
+    host["file"] = 0                      # the look-alike lives in the file that sorts first
+    has_default = any("Default" in sp["names"] for v in pkg["vars"] for sp in v["specs"])
+    strip = lambda name: [v for v in pkg["vars"] if not any(name in sp["names"] for sp in v["specs"])]
+    raw = lambda name, text, file: pkg["helpers"].append({"kind": "raw", "name": name, "file": file, "text": text})
+    ref = other["name"]
+    if variant == "local-default-only":          # no package-level Default at all
+        pkg["vars"] = strip("Default")
+        host["body_extra"] = ["var Default = %s" % ref, "_ = Default"]
+    elif variant == "local-before-package":      # a package-level Default in the LATER file, a local one earlier
+        pkg["vars"] = strip("Default") + [{"file": 1, "paren": False, "specs": [{"names": ["Default"], "values": [{"ref": ["ident", host["name"]]}]}]}]
+        host["body_extra"] = ["var Default = %s" % ref, "_ = Default"]
+    elif variant == "closure-aliases":
+        pkg["vars"] = strip("Aliases")
+        host["body_extra"] = ["func() {", "\tvar Aliases = map[string]interface{}{\"zz9\": %s}" % ref, "\t_ = Aliases", "}()"]
+    elif variant == "init-default":
+        pkg["vars"] = strip("Default")
+        raw("init", "func init() {\n\tvar Default, Aliases = %s, map[string]interface{}{\"zz8\": %s}\n\t_, _ = Default, Aliases\n}\n" % (ref, ref), 0)
+    elif variant == "method-local":
+        pkg["vars"] = strip("Default")
+        raw("holder", "type holder struct{}\n\nfunc (holder) Run() {\n\tvar (\n\t\tDefault = %s\n\t)\n\tDefault()\n}\n" % ref if not other["params"] and not other["res"]
+            else "type holder struct{}\n\nfunc (holder) Run() {\n\tvar Default = %s\n\t_ = Default\n}\n" % ref, 0)
+    elif variant == "const-default":
+        pkg["vars"] = strip("Default")
+        raw("Default", "const Default = \"%s\"\n" % ref, 0)
+    elif variant == "func-default":              # an exported FUNCTION called Default (so no variable of that name)
+        pkg["vars"] = strip("Default")
+        f = gen_func(rng, "Default", None, None)
+        f["file"] = 1
+        pkg["funcs"].append(f)
+    elif variant == "test-file":                 # a _test.go file is not part of the package the go tool builds
+        pkg["vars"] = strip("Default")
+        pkg["extra_files"] = {"aa_default_test.go": "//go:build mage\n\npackage main\n\nvar Default = %s\n" % ref}
+    elif variant == "tagged-out-file":           # excluded by a build constraint
+        pkg["vars"] = strip("Default")
+        pkg["extra_files"] = {"aa_default_other.go": "//go:build mage && neverset\n\npackage main\n\nvar Default = %s\n\nfunc OnlyWithTag() {}\n" % ref}
+    else:
+        raise ValueError(variant)
+    return pkg
+
+
 def gen_cli_words(rng, force=None):
     """a package whose targets are spelled like words the command line knows; `force`: that function exists"""
     pkg = gen_package(rng, cli=True, unicode=False)
@@ -624,6 +757,7 @@ def render_func(f):
         body = "\tprobe.Must(%s)\n" % call
         if zeros:
             body += "\treturn " + ", ".join(zeros) + "\n"
+    body = "".join("\t" + l + "\n" for l in f.get("body_extra", [])) + body
     return render_comment(f["doc"]) + "func %s%s%s(%s)%s {\n%s}\n" % (recv, f["name"], tp, ps, res, body)
 
 
@@ -632,6 +766,29 @@ def def_id(f):
 
 
 TYPE_UNDER = {"ns": "mg.Namespace", "alias-ns": "= mg.Namespace", "struct": "struct{}", "int": "int", "fake": "alt.Namespace"}
+# t["qual"]: how the declaring file names the package of Namespace: "mg" (plain import), "mage" (renamed import
+# of the real mg), "." (dot import of the real mg), "othermg" (ANOTHER package whose name is mg)
+QUAL_TEXT = {None: "mg.Namespace", "mg": "mg.Namespace", "othermg": "mg.Namespace", "mage": "mage.Namespace", ".": "Namespace"}
+
+
+def type_under(t):
+    if t["kind"] == "chain":
+        return t["of"]
+    if t["kind"] == "alias-of":
+        return "= " + t["of"]
+    if t["kind"] == "ns":
+        return QUAL_TEXT[t.get("qual")]
+    return TYPE_UNDER[t["kind"]]
+
+
+def textual_namespace(t):
+    """isNamespace as the code has it: the declared type is textually mg.Namespace"""
+    return t["kind"] == "alias-ns" or (t["kind"] == "ns" and t.get("qual") in (None, "mg", "othermg"))
+
+
+def real_namespace(t):
+    """by Go's type identity, unambiguously: declared as Namespace of the real mg package under its own name"""
+    return t["kind"] == "ns" and t.get("qual") in (None, "mg")
 
 
 def render_ref(r):
@@ -674,7 +831,7 @@ def render_package(pkg, pname):
     dot_files = {f["file"] for f in pkg["funcs"] for g in f["params"] if not isinstance(g["ty"], str) and g["ty"].get("dot")}
     done_groups = set()
     for t in pkg["types"]:
-        under = ("%s" % t["of"]) if t["kind"] == "chain" else TYPE_UNDER[t["kind"]]
+        under = type_under(t)
         tp = "[T any]" if t.get("tparams") else ""
         if t["group"] is None:
             bodies[t["file"]].append("type %s%s %s\n" % (t["name"], tp, under))
@@ -682,7 +839,7 @@ def render_package(pkg, pname):
             done_groups.add(t["group"])
             members = [x for x in pkg["types"] if x["group"] == t["group"]]
             bodies[t["file"]].append("type (\n" + "".join(
-                "\t%s%s %s\n" % (x["name"], "[T any]" if x.get("tparams") else "", ("%s" % x["of"]) if x["kind"] == "chain" else TYPE_UNDER[x["kind"]])
+                "\t%s%s %s\n" % (x["name"], "[T any]" if x.get("tparams") else "", type_under(x))
                 for x in members) + ")\n")
     for v in pkg["vars"]:
         lines = []
@@ -724,7 +881,11 @@ def render_package(pkg, pname):
         if i in dot_files:
             imps.insert(0, '. "time"')
         if "mg." in text:
-            imps.append('"github.com/magefile/mage/mg"')
+            imps.append('"example.test/%s/mg"' % pname if i in pkg.get("othermg_files", []) else '"github.com/magefile/mage/mg"')
+        if "mage." in text:
+            imps.append('mage "github.com/magefile/mage/mg"')
+        if i in pkg.get("dotmg_files", []):
+            imps.append('. "github.com/magefile/mage/mg"')
         head = "//go:build mage\n\n"
         if i == 0:
             head += render_comment(pkg["pkgdoc"])
@@ -736,6 +897,10 @@ def render_package(pkg, pname):
         files["mf_%d.go" % i] = head + text
     if any(t["kind"] == "fake" for t in pkg["types"]):
         files["alt/alt.go"] = "// Package alt has a type called Namespace that is not mg.Namespace.\npackage alt\n\ntype Namespace struct{}\n"
+    if pkg.get("othermg_files"):
+        files["mg/mg.go"] = "// Package mg is NOT github.com/magefile/mage/mg.\npackage mg\n\ntype Namespace struct{}\n"
+    for name, text in pkg.get("extra_files", {}).items():
+        files[name] = text
     if any("conf." in t for t in files.values()):
         files["conf/conf.go"] = ("// Package conf has types named like the ones mage supports.\npackage conf\n\n"
                                  "type Duration int64\n\ntype Month int\n\ntype Context interface{}\n")
@@ -757,6 +922,16 @@ def flat_param_names(f):
     return out
 
 
+def oracle_would_be_valid(pkg, f):
+    """an undecided declaration (oracle_ambiguous) that is a target IF its receiver counts as a namespace"""
+    if not (f["recv"] and oracle_ambiguous(pkg, f)):
+        return False
+    ts = [t for t in pkg["types"] if t["name"] == f["recv"][0]]
+    if not ts or not exported(ts[0]["name"]) or ts[0].get("tparams"):
+        return False
+    return oracle_valid(dict(pkg, types=[{"name": ts[0]["name"], "kind": "ns", "qual": "mg"}]), f)
+
+
 def oracle_valid(pkg, f):
     """exported package-level function, or exported method of an (exported) type declared as
     mg.Namespace that has no type parameters; parameters: optional leading context.Context then only string/int/bool/
@@ -765,7 +940,7 @@ def oracle_valid(pkg, f):
         return False
     if f["recv"]:
         ts = [t for t in pkg["types"] if t["name"] == f["recv"][0]]
-        if not ts or ts[0]["kind"] != "ns" or not exported(ts[0]["name"]) or ts[0].get("tparams"):
+        if not ts or not real_namespace(ts[0]) or not exported(ts[0]["name"]) or ts[0].get("tparams"):
             return False        # the generated program could not name a generic type without instantiating it
     ps = flat_param_types(f)
     if ps and ps[0] == "ctx":
@@ -779,6 +954,12 @@ def oracle_valid(pkg, f):
 def oracle_ambiguous(pkg, f):
     """a parameter written with the bare name of a dot-imported time type: semantically time.Duration,
     textually not - the sentence does not decide whether it is a target (it must not break the build)"""
+    if f["recv"]:
+        # the receiver type is mg.Namespace by Go's type identity (renamed / dot import, alias of a namespace type) or
+        # only by its spelling (another package called mg): the sentence does not decide; the code compares the text
+        ts = [t for t in pkg["types"] if t["name"] == f["recv"][0]]
+        if ts and ((ts[0]["kind"] == "ns" and ts[0].get("qual") in ("mage", ".", "othermg")) or ts[0]["kind"] == "alias-of"):
+            return True
     return any((not isinstance(g["ty"], str)) and g["ty"].get("dot") and g["ty"]["other"] == "Duration" for g in f["params"])
 
 
@@ -870,7 +1051,7 @@ def coq_pkg(pkg, docs, pkgdoc):
         rs = coq_list(["{| rnames := %d; rkind_ := %s |}" % (g["names"], {"error": "RKError", "local": "RKLocal", "other": "RKOther"}[g["kind"]]) for g in f["res"]])
         ds.append("{| fname := %s; recv := %s; tparams := %s; params := %s; res := %s; fdoc := %s; fsyn := %s |}" % (
             coq_str(f["name"]), recv, coq_bool(f["tparams"]), ps, rs, coq_str(doc), coq_str(syn)))
-    ts = ["{| tname := %s; is_namespace := %s; tgeneric := %s |}" % (coq_str(t["name"]), coq_bool(t["kind"] in ("ns", "alias-ns")), coq_bool(bool(t.get("tparams"))))
+    ts = ["{| tname := %s; is_namespace := %s; tgeneric := %s |}" % (coq_str(t["name"]), coq_bool(textual_namespace(t)), coq_bool(bool(t.get("tparams"))))
           for t in all_types(pkg)]
     vs = []
     for v in all_vars(pkg):
